@@ -441,7 +441,9 @@ func rulesC15(c *Ctx) {
 		fbGuard := false
 		inspectNoLit(az.Body, func(n ast.Node) {
 			if kv, ok := n.(*ast.KeyValueExpr); ok && exprStr(kv.Key) == "TokenEndpoint" {
-				fbGuard = hasAtom(g.GuardsAt(g.VertexOf(kv)), func(a Atom) bool { return AtomSaysNil(a, true, func(e ast.Expr) bool { return az.ObjOf(e) != nil && az.ObjOf(e) == az.VarFromCall(gam, 0) }) })
+				fbGuard = hasAtom(g.GuardsAt(g.VertexOf(kv)), func(a Atom) bool {
+					return AtomSaysNil(a, true, func(e ast.Expr) bool { return az.ObjOf(e) != nil && az.ObjOf(e) == az.VarFromCall(gam, 0) })
+				})
 			}
 		})
 		c.Check(fbGuard, "Authorize:fallback-only-without-metadata", az, nil, "the fallback is taken only when GetAuthServerMetadata returned (nil, nil)")
